@@ -44,6 +44,8 @@ def coerce(x):
         return None
     if isinstance(x, (int, Fraction)):
         return c(x)
+    if isinstance(x, (list, tuple)) and len(x) == 3 and all(isinstance(e, (int, Fraction, Rat)) and not isinstance(e, bool) for e in x):
+        return vec(*x)  # a literal [0, 0, 0] in the repository's code
     return x if isinstance(x, (Rat, Vec)) else None
 
 
@@ -98,6 +100,16 @@ def base_hook(extra=None):
             if res is not NO_MATCH:
                 return res
         nm = (name or "").split(".")[-1]
+        if isinstance(call.func, ast.Attribute) and call.func.attr == "move_to" and len(call.args) == 1:
+            # Point.move_to copies the three coordinates into its own array: over exact vectors, the position is replaced
+            from .peval import Obj as _Obj
+
+            recv = ev.eval(call.func.value)
+            if isinstance(recv, _Obj) and recv.has("position") and isinstance(recv.get("position"), Vec):
+                new_pos = coerce(ev.eval(call.args[0]))
+                if isinstance(new_pos, Vec):
+                    recv.set("position", new_pos)
+                    return recv
         if isinstance(call.func, ast.Attribute) and call.func.attr == "dot" and len(call.args) == 1:
             recv = ev.eval(call.func.value)
             if isinstance(recv, Vec):
